@@ -171,7 +171,30 @@ func c06CatchUp(maxA, maxB int) {
 // arbitrary statuses queues exactly one removal task for every wallet marked for removal, exactly one import
 // task for every wallet whose rescan has not finished, and nothing for a finished wallet. (quit is closed, so
 // the worker returns right after the pass.)
+// ---- cut: the tasks themselves (an import round is C07's harness, a removal C08's). With quit closed and tasks queued
+// the worker's select may run a queued task before it sees quit (Go picks among ready cases at random; the symbolic
+// executor explores every choice): under the cut a task that is run is counted and reports "finished". ----
+
+var c06Ran struct{ imports, removes []string }
+
+func (h *NtfnsHandler) asyncImport(walletId string) (bool, error) {
+	if !rt.CutActive("tasks") {
+		return h.asyncImport__real(walletId)
+	}
+	c06Ran.imports = append(c06Ran.imports, walletId)
+	return true, nil
+}
+
+func (h *NtfnsHandler) asyncRemove(walletId string) error {
+	if !rt.CutActive("tasks") {
+		return h.asyncRemove__real(walletId)
+	}
+	c06Ran.removes = append(c06Ran.removes, walletId)
+	return nil
+}
+
 func VerifC06WorkerResume() {
+	c06Ran.imports, c06Ran.removes = nil, nil
 	st := txmgr.VerifNewStoresWithKeystoreManager([]byte("DJr6BomK"))
 	w := &WalletManager{config: &config.Config{Wallet: config.NewDefWalletConfig()}, db: st.DB, chainParams: config.ChainParams,
 		ksmgr: st.Ks, bucketMeta: st.Meta, utxoStore: st.Utxo, txStore: st.Tx, syncStore: st.Sync}
@@ -215,6 +238,19 @@ func VerifC06WorkerResume() {
 				} else if t.taskType == WalletTaskRemove {
 					gotRemove[i]++
 				}
+			}
+		}
+	}
+	// a task the worker already ran (before it saw quit) counts as resumed
+	for i, id := range ids {
+		for _, r := range c06Ran.imports {
+			if r == id {
+				gotImport[i]++
+			}
+		}
+		for _, r := range c06Ran.removes {
+			if r == id {
+				gotRemove[i]++
 			}
 		}
 	}
